@@ -50,7 +50,20 @@ def run_case(case):
             counts[pname] = pc
     n_nan, n_unk = case["n_nan"], case["n_unknown"]
     unknowns = ["??unknown", "??other-unknown", "??third"][:n_unk]
+    if case.get("unknown_kind") == "empty" and n_unk:
+        unknowns = [""] + unknowns[: n_unk - 1]
+    numeric = bool(case.get("numeric"))
+    if numeric:
+        # the column holds integer codes, the hierarchy is written with their string forms; an unknown value is a number too
+        code = {v: i + 1 for i, v in enumerate(leaves)}
+        leaves_s = [str(code[v]) for v in leaves]
+        levels = [{p: [str(code[c]) if c in code else c for c in ch] for p, ch in lvl.items()} for lvl in levels]
+        counts = {str(code[k]) if k in code else k: v for k, v in counts.items()}
+        leaves = leaves_s
+        unknowns = [99, 98, 97][:n_unk]
     xs = [v for v, c in counts.items() for _ in range(c)] + unknowns + [np.nan] * n_nan
+    if numeric:
+        xs = [int(v) if isinstance(v, str) and v.isdigit() else v for v in xs]
     X = pd.DataFrame({"h": pd.Series(xs, dtype=object)})
     mf = case["min_freq"]
     res = {"violations": [], "sample": dict(case)}
@@ -173,6 +186,12 @@ def enumerate_cases(tier, seed):
                         for uh in ("raise", "drop"):
                             for nu in (1, 2) if (tier == "thorough" or si < 2) else (1,):
                                 cases.append({"shape": si, "counts": list(cnt), "n_nan": n_nan, "n_unknown": nu, "min_freq": mf, "unknown_handling": uh, "rename": 0})
+                            if si < 2 or tier == "thorough":
+                                # the unknown value is the empty string / the column holds numbers
+                                cases.append({"shape": si, "counts": list(cnt), "n_nan": n_nan, "n_unknown": 1, "min_freq": mf, "unknown_handling": uh, "rename": 0, "unknown_kind": "empty"})
+                                cases.append({"shape": si, "counts": list(cnt), "n_nan": n_nan, "n_unknown": 1, "min_freq": mf, "unknown_handling": uh, "rename": 0, "numeric": True})
+                        if si < 2:
+                            cases.append({"shape": si, "counts": list(cnt), "n_nan": n_nan, "n_unknown": 0, "min_freq": mf, "unknown_handling": "raise", "rename": 0, "numeric": True})
     transitions += len(cases)
     return cases, transitions
 
